@@ -98,6 +98,11 @@ class EngineB:
             s.overlay(u)
 
         def one(h):
+            if h.name in common.DROPPED:
+                h.verdict, h.out, h.secs = 'DROPPED', common.DROPPED[h.name], 0.0
+                with lock:
+                    ck.log(f'  [kani] DROPPED      {h.name}: {common.DROPPED[h.name]} (harness out of date)')
+                return h
             rc, out, dt = s._run_one(h)
             s.classify(h, rc, out, dt)
             with lock:
@@ -114,6 +119,9 @@ class EngineB:
             if h.verdict == 'SUCCESSFUL':
                 if h.cover_total and h.cover_ok < h.cover_total:
                     (ck.inconclusive if h.required else ck.not_covered).append(f'{h.name}: only {h.cover_ok}/{h.cover_total} reachability witnesses satisfied (harness partly vacuous)')
+            elif h.verdict == 'DROPPED':
+                # never a pass: the unit this harness was written against is gone or re-typed
+                ck.inconclusive.append(f'{h.name}: harness out of date - {h.out}')
             elif h.verdict in ('TIMEOUT', 'ERROR', 'COMPILE_ERROR'):
                 msg = f'{h.name}: {h.verdict} after {h.secs:.0f}s' + (': ' + ' | '.join(l for l in h.out.split('\n') if l.startswith('error'))[:600] if h.verdict != 'TIMEOUT' else '')
                 (ck.inconclusive if h.required else ck.not_covered).append(msg)
